@@ -102,18 +102,22 @@ def store (m : Map κ) (i : Nat) (k : κ) (v : Nat) : Map κ × List (Ev κ) × 
     else (m, [], -1)
   | none => ({ m with cells := m.cells.set (i % m.size) (some (k, v)), length := m.length + 1 }, [], 0)
 
-/-- `hashmap_put` -/
-def hput (P : Params κ) (m : Map κ) (k : κ) (v : Nat) : Map κ × List (Ev κ) × Int :=
-  let r1 := if m.size ≤ P.minSize m.length then rehash P m else (m, 0)
-  if r1.2 ≠ 0 then (r1.1, [], r1.2) else
-  match entryFind P r1.1.cells k true with
-  | some i => store r1.1 i k v
+/-- `hashmap_put` after the load-factor check -/
+def hput2 (P : Params κ) (m : Map κ) (k : κ) (v : Nat) : Map κ × List (Ev κ) × Int :=
+  match entryFind P m.cells k true with
+  | some i => store m i k v
   | none =>
-    let r2 := rehash P r1.1
+    -- no slot in the probe window: rehash once more
+    let r2 := rehash P m
     if r2.2 ≠ 0 then (r2.1, [], r2.2) else
     match entryFind P r2.1.cells k true with
     | some i => store r2.1 i k v
     | none => (r2.1, [], -12)
+
+/-- `hashmap_put` -/
+def hput (P : Params κ) (m : Map κ) (k : κ) (v : Nat) : Map κ × List (Ev κ) × Int :=
+  let r1 := if m.size ≤ P.minSize m.length then rehash P m else (m, 0)
+  if r1.2 ≠ 0 then (r1.1, [], r1.2) else hput2 P r1.1 k v
 
 /-- `m_map_put` (`v = 0` is the `NULL` value).  With `KEY_DUP` the library makes a private copy of
 the key (`kalloc`) and releases it again when no new entry was created.  With `KEY_AUTOFREE` alone it
